@@ -644,7 +644,10 @@ Definition struct_agrees_one (info : list entry) (c : tcomp) (sc : scomp) : bool
              opt_N_eqb (so_replica so) (o_replica o) && N.eqb (so_stage so) (o_stage o) &&
              let guard := match so_replica so with
                           | Some i => no_overlap info i (s_refs sc)
-                          | None => agg_guard info (s_refs sc)
+                          | None => (* a reference declared twice (in two spellings) is finding F3c: the copies
+                                       are appended once per declaration; C03_textual_refines_aggregate excludes it
+                                       (agg_sep: the keys of the translation table are pairwise different) *)
+                                    agg_guard info (s_refs sc) && nodup_str (rr_keys (repl_refs info (s_refs sc)))
                           end in
              (if guard then String.eqb (so_name so) (o_name o) &&
                             list_eqb String.eqb (map spell (so_refs so)) (o_refs o)
